@@ -166,6 +166,36 @@ Example c08_racing_cut_unfixed_example :
   /\ tail_cut (filter mr_keep race_log) (head_seen true (race_log ++ [race_frame]) (filter mr_keep race_log)) 2 = Some 2.
 Proof. exact racing_cut_unfixed_refuted. Qed.
 
+(* ... and a compile that SPANS complete appends (the readers read the head first: head of the thread l, then the mr
+   sidecar after `later` was appended completely — any number of frames): the cut is the cut of the thread after the appends
+   when one of them is a message, of the thread before them otherwise; decision and bundle are those of that thread state
+   when none of the appended frames is a checkpoint (a checkpoint appended in between is found by the lookups that run
+   afterwards: the S9 shape, open).  Replayed on the implementation by the span phase of rv c08 (the compile is held at the
+   rip_verif point between the two reads while the appends complete). *)
+Theorem c08_span_cut_linearizes : forall l later a,
+  incr (l ++ later) -> existsb (is_anchor a) (filter mr_keep l) = true ->
+  tail_cut (filter mr_keep (l ++ later)) (head_seq l) a
+  = if existsb is_msg later then cut_point (l ++ later) a else cut_point l a.
+Proof. exact span_cut_linearizes. Qed.
+Print Assumptions c08_span_cut_linearizes.
+
+Theorem c08_span_compile_linearizes : forall P texts l later a from,
+  valid_log (l ++ later) = true -> wf_refs (l ++ later) = true -> l <> [] ->
+  forallb (fun f => negb (is_ckpt f)) later = true ->
+  existsb (is_anchor a) (filter mr_keep l) = true ->
+  tail_cut (filter mr_keep (l ++ later)) (head_seq l) a = Some from ->
+  Some (compile_with P texts (filter mr_keep (l ++ later)) (filter is_ckpt (l ++ later)) from a)
+  = if existsb is_msg later then compile P texts (l ++ later) a else compile P texts l a.
+Proof. exact span_compile_linearizes. Qed.
+Print Assumptions c08_span_compile_linearizes.
+
+Example c08_span_example :
+  valid_log (race_log ++ [mkf 3 (BRunEnded 0 2); mkf 4 BOther]) = true
+  /\ tail_cut (filter mr_keep (race_log ++ [mkf 3 (BRunEnded 0 2); mkf 4 BOther])) (head_seq race_log) 2 = Some 2
+  /\ tail_cut (filter mr_keep (race_log ++ [mkf 3 BOther; mkf 4 BMsg])) (head_seq race_log) 2 = Some 3
+  /\ cut_point (race_log ++ [mkf 3 BOther; mkf 4 BMsg]) 2 = Some 3.
+Proof. exact span_example. Qed.
+
 (* ... S25 (fixed): a CHECKPOINT frame in flight (full sidecar written, checkpoint sidecar / index not yet).  The head is
    the checkpoint frame; the repaired *_for_compile_v1 lookups (compaction_checkpoint_caches_behind_head_v1, `ckpts_seen
    true`) answer from the stream when the checkpoint caches do not hold the head yet: the thread AFTER the append *)
